@@ -69,6 +69,9 @@ def run(res: C.Result):
     quick = res.tier == "quick"
     nprog = 90 if quick else 1800
     cases = [progs.add_mid_run_edit(progs.gen_program(rng, k)) for k in range(nprog)]
+    for k, p in enumerate(cases):
+        if k % 3 == 1:
+            p["np_verdicts"] = True          # the criteria answers numpy.bool_ (what `np.exp(-dE/kT) > rng.random()` gives), not bool
     # designated inputs of the open findings (they must keep being exercised)
     nk = 4 if quick else 30
     for k in range(nk):
